@@ -82,3 +82,64 @@ Qed.
 (* ---- the in-place variant: a retained reference changes its bytes ---- *)
 Definition reuse_witness : (bytes * list (nat * nat)) * (bytes * list (nat * nat)) :=
   (([130; 1; 2]%N, [(1, 1)]), ([130; 9; 2]%N, [(1, 1)])).
+
+(* ---- the CALLER's input buffer ------------------------------------------------
+   cbor.Decode(dataBytes, dest) streams the input through the decoder's private
+   buffer, so what UnmarshalCBOR is handed - and what SetCbor copies or
+   SetCborReference keeps - never aliases the caller's slice.  Model: the
+   caller's buffer is a heap cell c; `decode_from inplace = false` is the code
+   as it is (the input is read out of c, everything handed out lives in a
+   fresh buffer); `inplace = true` is decoding in place (UnmarshalFirst on the
+   caller's slice: seeded/C01-c-decode-in-place-aliases-input), where the
+   references kept with SetCborReference point into c itself. *)
+Definition decode_from (inplace : bool) (h : heap) (c : nat) (spans : list (nat * nat)) : heap * list ref :=
+  match nth_error h c with
+  | None => (h, [])
+  | Some data =>
+      if inplace then (h, (c, 0, length data) :: map (fun s => (c, fst s, snd s)) spans)
+      else let '(st, refs) := decode_into false (h, None) data spans in (fst st, refs)
+  end.
+
+Lemma nth_error_upd_other : forall h b c (v : bytes), b <> c -> nth_error (upd h c v) b = nth_error h b.
+Proof.
+  induction h as [|x t IH]; intros b c v Hne; [destruct c; reflexivity|].
+  destruct c as [|c]; destruct b as [|b]; cbn [upd nth_error]; try reflexivity; try congruence.
+  apply IH. congruence.
+Qed.
+
+Lemma read_upd_other h c v r : fst (fst r) <> c -> read (upd h c v) r = read h r.
+Proof. destruct r as [[b o] l]. cbn [fst]. intros H. unfold read. rewrite nth_error_upd_other by exact H. reflexivity. Qed.
+
+Lemma upd_length : forall h c (v : bytes), length (upd h c v) = length h.
+Proof. induction h as [|x t IH]; intros [|c] v; cbn [upd length]; auto. Qed.
+
+(* the caller overwrites its buffer (any number of times, with anything): nothing handed out changes *)
+Fixpoint scribble (h : heap) (c : nat) (vs : list bytes) : heap :=
+  match vs with [] => h | v :: r => scribble (upd h c v) c r end.
+
+Lemma read_scribble_other : forall vs h c r, fst (fst r) <> c -> read (scribble h c vs) r = read h r.
+Proof.
+  induction vs as [|v vs IH]; intros h c r H; [reflexivity|]. cbn [scribble].
+  rewrite IH by exact H. apply read_upd_other. exact H.
+Qed.
+
+Lemma decode_from_reads h c data sp : nth_error h c = Some data ->
+  let '(h', refs) := decode_from false h c sp in
+  Forall2 (fun r want => read h' r = Some want /\ fst (fst r) <> c)
+          refs (data :: map (fun s => slice (fst s) (snd s) data) sp).
+Proof.
+  intros Hc. unfold decode_from. rewrite Hc. pose proof (decode_reads h None data sp) as H.
+  assert (Hlt : c < length h) by (apply nth_error_Some; congruence).
+  cbn [decode_into set_cbor fst] in *.
+  assert (G : forall refs wants,
+    Forall2 (fun r want => read (h ++ [data]) r = Some want /\ fst (fst r) < length (h ++ [data])) refs wants ->
+    Forall (fun r => fst (fst r) = length h) refs ->
+    Forall2 (fun r want => read (h ++ [data]) r = Some want /\ fst (fst r) <> c) refs wants).
+  { induction 1 as [|r w rs ws [Hr _] _ IH]; intros Hall; constructor.
+    - inversion Hall; subst. split; [exact Hr|lia].
+    - apply IH. inversion Hall; assumption. }
+  apply G; [exact H|]. constructor; [reflexivity|]. apply Forall_forall. intros r Hin.
+  apply in_map_iff in Hin. destruct Hin as (s & <- & _). reflexivity.
+Qed.
+
+Definition inplace_witness : bytes * list (nat * nat) * bytes := ([130; 1; 2]%N, [(1, 1)], [130; 9; 2]%N).
